@@ -23,6 +23,14 @@ def is_bridge(ops) -> bool:
     return any(op[0] == "world" and op[1] == "bridge" for op in ops)
 
 
+def is_strings(ops) -> bool:
+    return any(op[0] == "world" and op[1] == "strings" for op in ops)
+
+
+def is_v6(ops) -> bool:
+    return any(op[0] == "world" and op[1] == "v6" for op in ops)
+
+
 def tables(ops):
     """(immediate, always-null) characteristic indexes by the HAP type of each test characteristic
     (#x and #x+4 are the same kind on the two bridged accessories)"""
@@ -272,6 +280,52 @@ def raise_family() -> List[List[list]]:
     return res
 
 
+def string_family() -> List[List[list]]:
+    """a STRING characteristic (#1 = Configured Name) among the notifying ones: values of every kind that
+    makes characters, bytes and JSON text differ in length (index v stands for sysev_world.STRS[v], kind
+    v % 8), set by the application or written by a controller (\\u-escaped or raw UTF-8 request), one or two
+    subscribers, and LATER events / reads on the same connections (a mis-framed message swallows them)"""
+    res = []
+    for kind in range(8):
+        for src in ("app", "ctrl", "worker"):
+            for two in (False, True):
+                for v6 in (False, True):
+                    if v6 and (kind + two) % 2:
+                        continue
+                    ops = [["advance", 1], ["world", "strings"]] + ([["world", "v6"]] if v6 else [])
+                    ops += [["connect", 0], ["verify", 0], ["connect", 1], ["verify", 1],
+                            ["putm", 0, [[1, True, None], [0, True, None]], False]]
+                    if two:
+                        ops.append(["putm", 1, [[0, True, None], [1, True, None]], False])
+                    v = 8 + kind
+                    if src == "app":
+                        ops.append(["app_set", 1, v])
+                    elif src == "worker":
+                        ops += [["app_set_thread", 1, v], ["ready"]]
+                    else:
+                        ops.append(["put", 1, 1, None, v, False])
+                    ops += [["advance", 10], ["app_set", 0, 42], ["advance", 10], ["get", 0, 1],
+                            ["app_set", 1, 16 + kind], ["app_set", 0, 43], ["advance", 10],
+                            ["put", 0, 1, None, 24 + (kind + 1) % 8, False], ["advance", 10], ["get", 1, 1], ["get", 0, 0]]
+                    res.append(ops)
+    return res
+
+
+def family_variants(scripts: List[List[list]], every: int = 6) -> List[List[list]]:
+    """the peer-address family and the value type are dimensions of EVERY script family: each `every`-th
+    deterministic script is repeated with IPv6 peers (4-tuple peernames) and -- when it touches
+    characteristic #1 and has no callbacks -- with #1 being a string characteristic"""
+    res = []
+    for i, ops in enumerate(scripts):
+        if i % every:
+            continue
+        if not any(op[0] == "world" and op[1] == "v6" for op in ops):
+            res.append(ops[:1] + [["world", "v6"]] + ops[1:])
+        if i % (2 * every) == 0 and not any(op[0] in ("cb",) or (op[0] == "world") for op in ops) and '1' in {str(z) for op in ops if op[0] in ("app_set", "put") for z in op[1:3]}:
+            res.append(ops[:1] + [["world", "strings"]] + ops[1:])
+    return res
+
+
 def scene_family() -> List[List[list]]:
     """one PUT with several queries ("scene" writes): on a bridge whose two accessories share their
     iids (#x on aid 2, #x+4 on aid 3) and on the standalone accessory; an event for one of the written
@@ -314,6 +368,12 @@ def random_script(rng: random.Random, max_ops: int = 30, flavour: str = "c12") -
         xs = rng.sample([0, 1, 2, 3], rng.choice([1, 2, 3, 3]))
     if flavour == "c12" and not bridge and rng.random() < 0.7 and not any(x in IMM for x in xs):
         xs[-1] = rng.choice(IMM)
+    if rng.random() < 0.25:
+        ops.append(["world", "v6"])  # IPv6 peers: 4-tuple peernames
+    if rng.random() < 0.25:
+        ops.append(["world", "strings"])  # #1 (and #5) hold strings
+        if not any(x % 4 == 1 for x in xs):
+            xs[0] = 1
     n = rng.randrange(6, max_ops + 1)
     if rng.random() < 0.35:
         # setter callbacks on some (never always-null) characteristics
